@@ -352,3 +352,60 @@ Fixpoint srun (w : sworld) (h : list op) : sworld * list out :=
   end.
 
 Definition sinit : sworld := mkSW [] false [] [mkView [] []] [].
+
+(* ====================================================================================================
+   Re-entrant consumers (round 2).  The consumer of Iterate / IterateKeys is user code and may call back
+   into the store - through the view it iterates, a sibling / parent / child view, a wrapper or a batch.
+   syncedKVMap.iterate / iterateKeys copy the matching entries (keys AND values) under the map's read lock,
+   release it, sort the copy and only then call the consumer on the copied entries with no lock held:
+   whatever the consumer does to the store cannot change what is delivered.  So: the call through the
+   wrapper stack yields the snapshot (= the plain call, `step` on OpKV); callback j (0-based) then performs
+   the operations script[j] (plain history operations, executed by `step`, results recorded); callbacks
+   run for exactly the delivered entries (the consumer's operations of the callback that says stop still run).
+   A history operation now yields a LIST of results: the call's own result, then those of the nested calls
+   in the order they returned.
+   ==================================================================================================== *)
+Inductive hop :=
+| HOp (o : op)
+| HIterRe (v : nat) (keysonly : bool) (p : bytes) (d : dir) (lim : nat) (script : list (list op)).
+
+Definition iter_op (keysonly : bool) (p : bytes) (d : dir) (lim : nat) : kvop :=
+  if keysonly then KIterateKeys p d lim else KIterate p d lim.
+
+(* number of consumer callbacks of a call that returned r (ErrStoreClosed / panic / bad handle: none) *)
+Definition ndeliv (r : out) : nat :=
+  match r with OKVs l => length l | OKeys l => length l | _ => 0%nat end.
+
+(* what the consumer does over the whole call when it is called n times *)
+Definition consumer_ops (n : nat) (script : list (list op)) : list op := concat (firstn n script).
+
+Definition hstep (w : world) (o : hop) : world * list out :=
+  match o with
+  | HOp o => let '(w1, x) := step w o in (w1, [x])
+  | HIterRe v ko p d lim script =>
+      let '(w1, res) := step w (OpKV v (iter_op ko p d lim)) in             (* snapshot first ... *)
+      let '(w2, xs) := run w1 (consumer_ops (ndeliv res) script) in         (* ... then the callbacks' calls *)
+      (w2, res :: xs)
+  end.
+
+Fixpoint hrun (w : world) (h : list hop) : world * list (list out) :=
+  match h with
+  | [] => (w, [])
+  | o :: r => let '(w1, x) := hstep w o in let '(w2, xs) := hrun w1 r in (w2, x :: xs)
+  end.
+
+(* specification side: the ordered map's range at call time, then the nested calls on the ordered map *)
+Definition shstep (w : sworld) (o : hop) : sworld * list out :=
+  match o with
+  | HOp o => let '(w1, x) := sstep w o in (w1, [x])
+  | HIterRe v ko p d lim script =>
+      let '(w1, res) := sstep w (OpKV v (iter_op ko p d lim)) in
+      let '(w2, xs) := srun w1 (consumer_ops (ndeliv res) script) in
+      (w2, res :: xs)
+  end.
+
+Fixpoint shrun (w : sworld) (h : list hop) : sworld * list (list out) :=
+  match h with
+  | [] => (w, [])
+  | o :: r => let '(w1, x) := shstep w o in let '(w2, xs) := shrun w1 r in (w2, x :: xs)
+  end.
